@@ -558,7 +558,9 @@ impl RunState {
             // puts
             0x22 => {
                 // could probably rewrite with iterators but idk if worth
-                for addr in self.reg(0).. {
+                // Address wraps at the top of memory; at most one pass over memory
+                for offset in 0..=u16::MAX {
+                    let addr = self.reg(0).wrapping_add(offset);
                     let chr_raw = self.mem(addr);
                     let chr_ascii = (chr_raw & 0xFF) as u8 as char;
                     if chr_ascii == '\0' {
@@ -577,7 +579,9 @@ impl RunState {
             }
             // putsp
             0x24 => {
-                'string: for addr in self.reg(0).. {
+                // Address wraps at the top of memory; at most one pass over memory
+                'string: for offset in 0..=u16::MAX {
+                    let addr = self.reg(0).wrapping_add(offset);
                     let chr_raw = self.mem(addr);
                     for chr in [chr_raw >> 8, chr_raw & 0xFF] {
                         let chr_ascii = chr as u8 as char;
